@@ -195,7 +195,9 @@ def incrementContentPointer (env : Env) : M Bool := do
           | some (.idx i) => climb fuel a.dropLast ((i : Int) + 1) true
           | _ => ({ container := some a, index := index }, false)   -- root, or a named-only child
         else ({ container := some a, index := index }, ok)
-    let (np, ok) := climb (a.length + 2) a (p.index + 1) true
+    -- `pointer.index.saturating_add(1)`
+    let next : Int := if p.index + 1 > i32Max then i32Max else p.index + 1
+    let (np, ok) := climb (a.length + 2) a next true
     let np := if ok then np else Ptr.null
     modify (fun s => s.setCurrentPtr np)
     return ok
@@ -212,13 +214,15 @@ def nextSequenceShuffleIndex (env : Env) : M Int := do
   let seqCount ← match o2 with
     | .val (.int n) => pure n
     | _ => invalid "Expected sequence count value for shuffle index"
-  if numElements == 0 then crash "story/mod.rs:shuffle_div_zero"
+  -- `MAX_SHUFFLE_ELEMENTS`: the shuffle divides by the number and lists that many indices
+  if numElements ≤ 0 || numElements > 10000 then
+    invalid ("Expected between 1 and 10000 elements in sequence for shuffle index, but saw " ++ intToString numElements)
   let loopIndex := Int.tdiv seqCount numElements
   let iterationIndex := Int.tmod seqCount numElements
   let pathStr ← unwrap "object.rs:get_path" (pathOf env.root seqContainer)
+  -- (`fold(0, wrapping_add)`: wrapping the total below is the same as wrapping every partial sum)
   let sequenceHash : Int := pathStr.toText.foldl (fun h c => h + (c.toNat : Int)) 0
   let randomSeed := wrapI32 (sequenceHash + loopIndex + s.storySeed)
-  if numElements < 0 then return 0   -- `(0..n).collect()` is empty and the loop body indexes it
   let rec pick (fuel : Nat) (i : Nat) (unpicked : List Int) : Option Int :=
     match fuel with
     | 0 => none
@@ -317,16 +321,42 @@ def callExternalFunction (env : Env) (funcName : String) (nArgs : Nat) : M Unit 
     else
       invalid ("Trying to call EXTERNAL function '" ++ funcName ++ "' which has not been bound (and ink fallbacks disabled).")
 
-/-- `Divert::get_target_pointer` for the divert at `a` with target `target`. -/
-def divertTargetPointer (env : Env) (a : Addr) (target : Path) : M Ptr := do
-  let sr ← unwrap "object.rs:resolve_path" (resolvePath env.root a target)
+/-- `Divert::get_target_pointer` for the divert at `a` with target `target`
+    (`Result<Pointer, StoryError>`; the cache of the Rust is not observable). -/
+def targetPointerOf (root : Obj) (a : Addr) (target : Path) : Out Ptr :=
+  -- the empty path is rejected before the path is resolved
   match target.lastComp with
-  | none => crash "divert.rs:last_component"
-  | some (.idx i) =>
-    return { container := if sr.addr.isEmpty then none else some sr.addr.dropLast, index := i }
-  | some (.name _) =>
-    if isContainerAt env.root sr.addr then return Ptr.startOf sr.addr
-    else crash "divert.rs:target_not_container"
+  | none => .invalid "Divert target path is empty."
+  | some last =>
+    match resolvePath root a target with
+    | none => .panic "object.rs:resolve_path"
+    | some sr =>
+      match last with
+      | .idx i =>
+        -- `index as i32`: the `usize` index is truncated to 32 bits
+        .ok { container := if sr.addr.isEmpty then none else some sr.addr.dropLast, index := wrapI32 i }
+      | .name _ =>
+        if isContainerAt root sr.addr then .ok (Ptr.startOf sr.addr)
+        else .invalid ("Divert target is not a container: " ++ String.ofList target.toText)
+
+def divertTargetPointer (env : Env) (a : Addr) (target : Path) : M Ptr :=
+  lift (targetPointerOf env.root a target)
+
+/-- `Divert::get_target_path` for a divert with the (non-variable) target `target`: a relative
+    path whose target pointer addresses an object is replaced by the path of that object; a
+    target that cannot be resolved keeps its relative path (the error is swallowed). -/
+def divertTargetPath (root : Obj) (a : Addr) (target : Path) : Out Path :=
+  if target.rel then
+    match targetPointerOf root a target with
+    | .ok p =>
+      (match p.resolve root with
+      | some r => (match pathOf root r with
+        | some rp => .ok rp
+        | none => .panic "object.rs:get_path")
+      | none => .ok target)
+    | .err _ _ => .ok target
+    | .panic s => .panic s
+  else .ok target
 
 def pointerAtPathM (env : Env) (p : Path) : M Ptr := lift (pointerAtPath env.root p)
 
@@ -377,7 +407,10 @@ def processChoice (env : Env) (a : Addr) (flags : Int) (pathOnChoice : Path) : M
   let sr ← unwrap "object.rs:resolve_path" (resolvePath env.root a pathOnChoice)
   let targetIsContainer := isContainerAt env.root sr.addr
   if onceOnly then
-    if !targetIsContainer then crash "choices.rs:choice_target_unwrap"
+    if !targetIsContainer then
+      -- `Display for ChoicePoint`: the raw path on the choice (it is only rewritten when the target is a container)
+      invalid ("Failed to find the target container of a once-only choice: Choice: -> "
+        ++ String.ofList pathOnChoice.toText)
     let s ← get
     let vc ← lift (s.visitCountFor env.root sr.addr)
     if vc > 0 then visible := false
@@ -402,7 +435,7 @@ def choosePath (env : Env) (p : Path) (incrementTurn : Bool) : M Unit := do
   modify (fun s =>
     let s1 := { s with flow := { s.flow with choices := [] } }
     let s2 := s1.setCurrentPtr ptr
-    if incrementTurn then { s2 with turnIndex := s2.turnIndex + 1 } else s2)
+    if incrementTurn then { s2 with turnIndex := wrapI32 (s2.turnIndex + 1) } else s2)
   visitChangedContainersDueToDivert env
 
 /-- `try_follow_default_invisible_choice` -/
@@ -437,29 +470,32 @@ def performLogicAndFlowControl (env : Env) (a : Addr) (obj : Obj) : M Bool := do
     match d.varName with
     | some vn =>
       let s ← get
-      match s.getVariable env.defs vn (-1) 64 with
-      | none => crash "callstack.rs:get_temporary_variable_with_name"
-      | some (some (.dtarget target)) =>
+      match s.getVariable env.defs vn (-1) Core.maxPointerChain with
+      | some (.dtarget target) =>
         let p ← pointerAtPathM env target
         modify (fun s => { s with divertedPtr := p })
-      | some (some v) =>
+      | some v =>
         let base := "Tried to divert to a target from a variable, but the variable (" ++ vn
           ++ ") didn't contain a divert target, it "
         match v with
         | .int 0 => invalid (base ++ "was empty/null (the value 0).")
         | .int _ => invalid (base ++ "contained '" ++ v.display ++ "'.")
         | _ => invalid base
-      | some none =>
+      | none =>
         invalid ("Tried to divert using a target from a variable that could not be found (" ++ vn ++ ")")
     | none =>
       if d.external then
         let target ← unwrap "divert.rs:get_target_path_string" d.target
         let own ← unwrap "object.rs:get_path" (pathOf env.root a)
+        -- `get_target_path_string`: the (resolved) target path, compacted against the divert's own path
+        let target ← lift (divertTargetPath env.root a target)
         let name ← unwrap "path.rs:path_by_appending_path" (Path.compact own target)
         callExternalFunction env (String.ofList name) d.exArgs
         return true
       else
-        let target ← unwrap "divert.rs:target_path" d.target
+        let target ← match d.target with
+          | some target => pure target
+          | none => invalid "Divert has no target path."
         let p ← divertTargetPointer env a target
         modify (fun s => { s with divertedPtr := p })
     if d.pushes then
@@ -494,7 +530,7 @@ def performLogicAndFlowControl (env : Env) (a : Addr) (obj : Obj) : M Bool := do
       let s ← get
       match s.evalStack.head? with
       | some o => pushEvalM env o
-      | none => crash "control_logic.rs:duplicate_peek"
+      | none => invalid "Evaluation stack is empty: nothing to duplicate."
     | .popEvaluatedValue => let _ ← popEvalM; pure ()
     | .popFunction | .popTunnel =>
       let popType : PushPop := if c == .popFunction then .function else .tunnel
@@ -565,7 +601,7 @@ def performLogicAndFlowControl (env : Env) (a : Addr) (obj : Obj) : M Bool := do
       pushEvalM env (.val (.int s.flow.choices.length))
     | .turns =>
       let s ← get
-      pushEvalM env (.val (.int (s.turnIndex + 1)))
+      pushEvalM env (.val (.int (wrapI32 (s.turnIndex + 1))))
     | .turnsSince | .readCount =>
       let target ← popEvalM
       match target with
@@ -581,10 +617,10 @@ def performLogicAndFlowControl (env : Env) (a : Addr) (obj : Obj) : M Bool := do
             if !o.turnsCounted then
               match o with
               | .container (some n) _ _ _ => invalid ("TURNS_SINCE() for target (" ++ n ++ ") unknown.")
-              | _ => crash "story_state.rs:turns_since_name_unwrap"
+              | _ => invalid "TURNS_SINCE() for target (<no name>) unknown."
             let cp ← unwrap "object.rs:get_path" (pathOf env.root ca)
             let v : Int := match alGet s.turnIndices (String.ofList cp.toText) with
-              | some idx => s.turnIndex - idx
+              | some idx => wrapI32 (s.turnIndex - idx)
               | none => -1
             pushEvalM env (.val (.int v))
           else
@@ -636,7 +672,7 @@ def performLogicAndFlowControl (env : Env) (a : Addr) (obj : Obj) : M Bool := do
       let s ← get
       let cpc ← unwrap "control_logic.rs:visit_index_container" s.currentPtr.container
       let v ← lift (s.visitCountFor env.root cpc)
-      pushEvalM env (.val (.int (v - 1)))
+      pushEvalM env (.val (.int (wrapI32 (v - 1))))
     | .sequenceShuffleIndex =>
       let v ← nextSequenceShuffleIndex env
       pushEvalM env (.val (.int v))
@@ -659,7 +695,9 @@ def performLogicAndFlowControl (env : Env) (a : Addr) (obj : Obj) : M Bool := do
       match intVal with
       | none => invalid "Passed non-integer when creating a list element from a numerical value."
       | some iv =>
-        let ln ← unwrap "control_logic.rs:list_name_unwrap" listName
+        let ln ← match listName with
+          | some ln => pure ln
+          | none => invalid "Passed non-string as the list name when creating a list element from a numerical value."
         match env.defs.find ln with
         | none => invalid ("Failed to find List called " ++ ln)
         | some items =>
@@ -687,7 +725,9 @@ def performLogicAndFlowControl (env : Env) (a : Addr) (obj : Obj) : M Bool := do
           match sorted[idx]? with
           | none => crash "control_logic.rs:list_random_index"
           | some (item, v) =>
-            let oname ← unwrap "control_logic.rs:list_random_origin" item.origin
+            let oname ← match item.origin with
+              | some oname => pure oname
+              | none => invalid ("LIST_RANDOM picked the item " ++ item.name ++ " which has no origin list")
             if (env.defs.find oname).isNone then
               invalid ("InkList origin could not be found in story when constructing new list: " ++ oname)
             let nl : InkList := { items := [(item, v)], origins := [oname], initialOrigins := [oname] }
@@ -725,16 +765,16 @@ def performLogicAndFlowControl (env : Env) (a : Addr) (obj : Obj) : M Bool := do
     match count with
     | some p =>
       let sr ← unwrap "object.rs:resolve_path" (resolvePath env.root a p)
-      if !isContainerAt env.root sr.addr then crash "variable_reference.rs:container_for_count"
+      if !isContainerAt env.root sr.addr then
+        invalid ("Failed to find container for read count at " ++ String.ofList p.toText)
       let s ← get
       let v ← lift (s.visitCountFor env.root sr.addr)
       pushEvalM env (.val (.int v))
     | none =>
       let s ← get
-      match s.getVariable env.defs name (-1) 64 with
-      | none => crash "callstack.rs:get_temporary_variable_with_name"
-      | some (some v) => pushEvalM env (.val v)
-      | some none =>
+      match s.getVariable env.defs name (-1) Core.maxPointerChain with
+      | some v => pushEvalM env (.val v)
+      | none =>
         addErrorM env.root ("Variable not found: '" ++ name ++ "'. Using default value of 0 (false). This can happen with temporary variables if the declaration hasn't yet been hit. Globals are always given a default value on load if a value doesn't exist in the save state.") true
         pushEvalM env (.val (.int 0))
     return true
@@ -830,7 +870,9 @@ def step (env : Env) : M Unit := do
     | _ => pure ()
   | _, _ => pure ()
   if shouldAdd then
-    let o ← unwrap "progress.rs:step_content_unwrap" contentObj
+    let o ← match contentObj with
+      | some o => pure o
+      | none => invalid "The current content pointer does not address any content."
     let s ← get
     let o' : Obj := match o with
       | .val (.varptr n (-1)) => .val (.varptr n (s.callstack.contextForVariableNamed n))
